@@ -1,6 +1,12 @@
 package main
 
 import (
+	"strconv"
+	"os/exec"
+	"path/filepath"
+	"sync/atomic"
+	"net/http/httptest"
+	"strings"
 	"bytes"
 	"fmt"
 	"io"
@@ -169,6 +175,18 @@ func runC07(idx int, rng *rand.Rand, tier string) []Case {
 	for i := range rs {
 		rs[i] = genCodecResult(rng, crlf && i == 0)
 	}
+	big := ""
+	switch idx % 60 {
+	case 11: // a body larger than any line / token buffer (64 KiB) in a middle or first record
+		k := rng.Intn(n)
+		rs[k].Body = make([]byte, 66000+rng.Intn(90000))
+		rng.Read(rs[k].Body)
+		big = "body"
+	case 37: // a long text
+		k := rng.Intn(n)
+		rs[k].Error = strings.Repeat(c07Texts[rng.Intn(len(c07Texts))], 1+rng.Intn(4)) + strings.Repeat("x\"y,", 14000+rng.Intn(4000))
+		big = "text"
+	}
 	var c Case
 	w := &c.W
 	w.Z(1)
@@ -194,6 +212,9 @@ func runC07(idx int, rng *rand.Rand, tier string) []Case {
 	}
 	c.Tag += ";nt"
 	c.Dist = fmt.Sprintf("codec/n%d/crlf=%v", sizeClass(n), crlf)
+	if big != "" {
+		c.Dist += "/big" + big
+	}
 	c.Sample = map[string]interface{}{"records": n, "first": fmt.Sprintf("%+v", rs[0])[:min(300, len(fmt.Sprintf("%+v", rs[0])))]}
 	return []Case{c}
 }
@@ -325,7 +346,51 @@ type offsetWriter struct {
 
 func (o *offsetWriter) Write(p []byte) (int, error) { o.writes++; return o.buf.Write(p) }
 
+// the attack command itself: results that completed must be in the output when the writer is killed
+func runC09Attack(idx int, rng *rand.Rand) []Case {
+	var done int64
+	srv := httptest.NewServer(http.HandlerFunc(func(w http.ResponseWriter, r *http.Request) {
+		w.Write([]byte("ok"))
+		atomic.AddInt64(&done, 1)
+	}))
+	defer srv.Close()
+	out := filepath.Join(scratchDir(), fmt.Sprintf("c09attack%d.bin", idx))
+	defer os.Remove(out)
+	rate := []int{10, 20, 35}[rng.Intn(3)]
+	cmd := exec.Command(os.Getenv("VERIF_VEGETA"), "attack", "-rate", strconv.Itoa(rate), "-duration", "20s", "-output", out)
+	cmd.Stdin = strings.NewReader("GET " + srv.URL + "/\n")
+	if err := cmd.Start(); err != nil {
+		panic(err)
+	}
+	time.Sleep(time.Duration(700+rng.Intn(600)) * time.Millisecond)
+	completed := atomic.LoadInt64(&done) // responses fully served by now
+	time.Sleep(400 * time.Millisecond)   // ample time for the client side to record them
+	cmd.Process.Kill()
+	cmd.Wait()
+	b, _ := os.ReadFile(out)
+	back, _ := decodeAll(vegeta.NewDecoder(bytes.NewReader(b)), 1<<20)
+	clean := true
+	for i := range back {
+		if back[i].Seq != uint64(i) || back[i].Code != 200 {
+			clean = false
+		}
+	}
+	var c Case
+	w := &c.W
+	w.Z(2)
+	w.Z(completed)
+	w.I(len(back))
+	w.Bool(clean)
+	c.Tag = "attack.kill;nt"
+	c.Dist = "attack killed while writing"
+	c.Sample = map[string]interface{}{"rate": rate, "completed_before_kill": completed, "records_in_file": len(back), "bytes": len(b)}
+	return []Case{c}
+}
+
 func runC09(idx int, rng *rand.Rand, tier string) []Case {
+	if idx%40 == 13 {
+		return runC09Attack(idx, rng)
+	}
 	formats := []string{"gob", "csv", "json"}
 	f := idx % 3
 	n := 1 + rng.Intn(12)
